@@ -29,6 +29,7 @@ clause → theorem
                                                                   order: `late_caller_hangs_if_drain_first`
 * every later call returns an error without blocking ............ `later_calls_error`, `unregistered_call_outcome`, `unregistered_call_fails`,
                                                                   `dead_connection_outcome(_by_client)`, `call_rank_decreases`
+* a WebSocket Close / Text message is a connection failure ...... `ws_close_or_text_is_failure`, `ws_ping_pong_inert`
 * subscriber sees end-of-stream ................................. `subscriber_eof` (`ws_takes_notify_sender`)
 * timeout / cancellation leave nothing behind ................... `timeout_no_residue`, `cancel_no_residue`,
                                                                   `returned_call_has_no_entry` (`removal_facts`)
@@ -254,6 +255,24 @@ theorem dead_connection_outcome_by_client :
 
 example : (run Gen.Mux.wsCfg State.init (.readErr :: List.replicate 12 .failStep)).reader = .finished 0 := by
   decide
+
+/-- **WebSocket control messages** (`decode_websocket_frame`, re-extracted): a Close or a Text message
+ends the connection exactly like a read error — the reader enters the failure path, to which every
+theorem above applies — whether or not the peer also closes the TCP socket; Ping and Pong change nothing. -/
+theorem ws_close_or_text_is_failure (s : State) (hr : s.reader = .idle) :
+    ctlStep Gen.Mux.wsCfg s Gen.Mux.wsClose = step Gen.Mux.wsCfg s .readErr ∧
+    ctlStep Gen.Mux.wsCfg s Gen.Mux.wsText = step Gen.Mux.wsCfg s .readErr ∧
+    Failed (ctlStep Gen.Mux.wsCfg s Gen.Mux.wsClose) ∧ Failed (ctlStep Gen.Mux.wsCfg s Gen.Mux.wsText) := by
+  have h1 : Gen.Mux.wsClose = .fail := by decide
+  have h2 : Gen.Mux.wsText = .fail := by decide
+  rw [h1, h2]
+  refine ⟨rfl, rfl, ?_, ?_⟩ <;> simp [ctlStep, step, hr, Failed]
+
+theorem ws_ping_pong_inert (s : State) :
+    ctlStep Gen.Mux.wsCfg s Gen.Mux.wsPing = s ∧ ctlStep Gen.Mux.wsCfg s Gen.Mux.wsPong = s := by
+  have h1 : Gen.Mux.wsPing = .ignore := by decide
+  have h2 : Gen.Mux.wsPong = .ignore := by decide
+  rw [h1, h2]; exact ⟨rfl, rfl⟩
 
 /-- Number of own steps a call still needs before it returns. -/
 def callRank (k : Call) : Nat :=
